@@ -76,6 +76,11 @@ public:
    /** Returns the current source-exclusion ID.  See above for details. */
    MUSCLE_NODISCARD uint32 GetSourceExclusionID() const {return _sexID;}
 
+#ifdef MUSCLE_VERIF_HOOKS
+   /** Verification hook:  lets a test start the outgoing message-ID counter near its wrap-around point */
+   void VerifSetSendMessageIDCounter(uint32 c) {_sendMessageIDCounter = c;}
+#endif
+
 protected:
    /** Implemented to receive packets from various sources and re-assemble them together into
      * the appropriate Message objects.  Note that when MessageReceived() is called on the
